@@ -347,6 +347,91 @@ fn independence_oracle(r: &mut Report, seed: u64, trials: u64, mutant: Mutant) {
     r.notes.push(format!("independence oracle: uniform crossover on genomes of length {len}, {trials} recombinations per flavour, agreement of decisions at lags {lags:?} and per-position frequencies (Hoeffding, 1e-12)"));
 }
 
+/// (f) a caller-defined `Crossover` genome whose exchange primitives refuse some positions: the recombinators hand that
+/// refusal on as `Crossover(e)` exactly when the exchange is attempted (uniform: the first position in genome order
+/// whose coin says "take from the second parent"; two-point: a drawn segment containing the frozen position), and
+/// otherwise return the child the coins / cut points prescribe.  The draws are read off a clone of the generator with
+/// the model's rule (one `bool` per position; two `0..=len` cut points, ordered).  Model-free.
+fn refusing_genomes(r: &mut Report, seed: u64) {
+    use rand::Rng;
+    #[derive(Clone, Debug, PartialEq)]
+    struct Track { genes: Vec<u8>, frozen: Option<usize> }
+    #[derive(Debug, PartialEq)]
+    struct Frozen(usize);
+    impl std::fmt::Display for Frozen { fn fmt(&self, f: &mut std::fmt::Formatter<'_>) -> std::fmt::Result { write!(f, "gene {} is frozen", self.0) } }
+    impl std::error::Error for Frozen {}
+    impl ec_core::genome::Genome for Track { type Gene = u8; }
+    impl ec_linear::genome::Linear for Track {
+        fn size(&self) -> usize { self.genes.len() }
+        fn gene_mut(&mut self, index: usize) -> Option<&mut u8> { self.genes.get_mut(index) }
+    }
+    impl Crossover for Track {
+        type GeneCrossoverError = Frozen;
+        type SegmentCrossoverError = Frozen;
+        fn crossover_gene(&mut self, other: &mut Self, index: usize) -> Result<(), Frozen> {
+            if self.frozen == Some(index) { return Err(Frozen(index)); }
+            std::mem::swap(&mut self.genes[index], &mut other.genes[index]);
+            Ok(())
+        }
+        fn crossover_segment(&mut self, other: &mut Self, range: std::ops::Range<usize>) -> Result<(), Frozen> {
+            if let Some(f) = self.frozen { if range.contains(&f) { return Err(Frozen(f)); } }
+            self.genes[range.clone()].swap_with_slice(&mut other.genes[range]);
+            Ok(())
+        }
+    }
+    let mut bad: Vec<String> = vec![];
+    let mut n = 0u64;
+    for len in [1usize, 2, 5, 9] {
+        for frozen in [None, Some(0usize), Some(len / 2), Some(len - 1)] {
+            for s in 0..40u64 {
+                n += 1;
+                let base = SplitMix::derive(seed ^ 0xF20, (len as u64) << 16 | (frozen.map_or(99, |f| f as u64)) << 8 | s);
+                let a = Track { genes: (0..len as u8).collect(), frozen };
+                let b = Track { genes: (0..len as u8).map(|x| 100 + x).collect(), frozen: None };
+                // uniform: one coin per position, in order; the first refused exchange ends it
+                let mut sh = base.clone();
+                let mut want: Result<Vec<u8>, usize> = Ok(a.genes.clone());
+                for i in 0..len {
+                    if sh.random::<bool>() {
+                        if frozen == Some(i) { want = Err(i); break; }
+                        if let Ok(g) = &mut want { g[i] = b.genes[i]; }
+                    }
+                }
+                for tuple in [false, true] {
+                    let mut rng = base.clone();
+                    let got = catch_unwind(AssertUnwindSafe(|| if tuple { UniformXo.recombine((a.clone(), b.clone()), &mut rng) } else { UniformXo.recombine([a.clone(), b.clone()], &mut rng) }));
+                    let got = match got {
+                        Err(_) => { bad.push(format!("UniformXo on a caller-defined genome of length {len} (frozen {frozen:?}) panicked")); continue; }
+                        Ok(Ok(child)) => Ok(child.genes),
+                        Ok(Err(CrossoverGeneError::Crossover(Frozen(i)))) => Err(i),
+                        Ok(Err(e)) => { bad.push(format!("UniformXo on equal-length caller-defined genomes reported {e:?}")); continue; }
+                    };
+                    if got != want { bad.push(format!("UniformXo ({}) on a genome of length {len} whose position {frozen:?} refuses exchanges: got {got:?}, the coins of this stream prescribe {want:?} (Ok = child genes, Err = refused position)", if tuple { "tuple" } else { "array" })); }
+                }
+                // two-point: two cut points in 0..=len, ordered; the segment between them comes from the second parent
+                let mut sh = base.clone();
+                let (mut c1, mut c2) = (sh.random_range(0..=len), sh.random_range(0..=len));
+                if c2 < c1 { std::mem::swap(&mut c1, &mut c2); }
+                let want2: Result<Vec<u8>, usize> = match frozen { Some(f) if (c1..c2).contains(&f) => Err(f), _ => { let mut g = a.genes.clone(); g[c1..c2].copy_from_slice(&b.genes[c1..c2]); Ok(g) } };
+                let mut rng = base.clone();
+                let got2 = catch_unwind(AssertUnwindSafe(|| TwoPointXo.recombine([a.clone(), b.clone()], &mut rng)));
+                match got2 {
+                    Err(_) => bad.push(format!("TwoPointXo on a caller-defined genome of length {len} (frozen {frozen:?}) panicked")),
+                    Ok(res) => {
+                        let got2: Result<Vec<u8>, usize> = match res { Ok(child) => Ok(child.genes), Err(e) => { let t = format!("{e:?}"); match frozen { Some(f) if t.contains(&format!("Frozen({f})")) => Err(f), _ => Err(usize::MAX) } } };
+                        if got2 != want2 { bad.push(format!("TwoPointXo on a genome of length {len} whose position {frozen:?} refuses exchanges, cut points {c1}..{c2}: got {got2:?}, expected {want2:?}")); }
+                    }
+                }
+            }
+        }
+    }
+    r.case("caller-defined Crossover genome with refusing positions", true);
+    r.hit_n("recombinations of a refusing caller-defined genome (oracle only)", n);
+    for what in bad.into_iter().take(6) {
+        r.violate(json!({"case": "UniformXo / TwoPointXo over a caller-defined Crossover genome whose exchange primitives refuse one position", "what": what}));
+    }
+}
+
 /// (e) parents of astronomic length (zero-sized genes, so they cost nothing): two-point crossover of equal-length
 /// parents returns a child of that length - cut points range over 0..=len also when len + 1 does not exist
 fn astronomic_parents(r: &mut Report, seed: u64) {
@@ -414,7 +499,7 @@ pub fn run_with(cfg: &Cfg, mutant: Mutant) -> Report {
     });
     coverage_oracle(&mut rep, seed, if cfg.thorough { 4000 } else { 1200 }, mutant);
     independence_oracle(&mut rep, seed, if cfg.thorough { 6000 } else { 1500 }, mutant);
-    if mutant == Mutant::None { astronomic_parents(&mut rep, seed); }
+    if mutant == Mutant::None { crate::watch::guarded("xo: parents of astronomic length (zero-sized genes); caller-defined genome with refusing positions", || { astronomic_parents(&mut rep, seed); refusing_genomes(&mut rep, seed); }); }
     rep.exhaustive = false;
     rep.notes.push(format!("exchange scope exhaustive: lengths 0..={l_max} x 0..={l_max}, {patterns} bit patterns, every index in [0,max+2], every (start,end) in [0,max+2]^2; {n_rand} seeded recombinations; coverage oracle for n<=5"));
     if mutant != Mutant::None { rep.notes.push(format!("SELFTEST: the real operators were replaced by the mutant {mutant:?}")); }
